@@ -463,7 +463,46 @@ def rule_total(ctx) -> None:
         for c in cn:
             facts |= cfgb.facts(c)
         ok = any(p and a.startswith(f"isinstance({nm},") for a, p in facts) or _narrowed_in_boolop(ctx.prog, cb, node, nm)
+        if not ok:
+            # `<use of v> if isinstance(v, T) else ...`: narrowed by the conditional expression it sits in
+            for st, part in enclosing(ctx.prog, cb, node):
+                pass
+            par = ctx.prog.parents(cb.node)
+            cur = node
+            while cur is not None and not ok:
+                up = par.get(id(cur))
+                if isinstance(up, ast.IfExp) and up.body is cur and any(isinstance(y, ast.Call) and dotted(y.func) == "isinstance" and y.args and isinstance(y.args[0], ast.Name) and y.args[0].id == nm for y in ast.walk(up.test)):
+                    ok = True
+                cur = up
         ctx.check(ok, "C13.TOTAL", f"{cb.qual}/{nm}{what}", cb.loc(node), f"{what} on the flag value is narrowed", f"{what} on the untrusted flag value is not narrowed")
+    # hashing: `<value> in <dict / set>`, `<dict>[<value>]`, `<dict>.get(<value>)` raise TypeError for an unhashable value (a JSON
+    # array or object where the flag was expected) - each such use is narrowed to hashable types first
+    tainted = {cb.params[0]}
+    for _ in range(2):
+        for x in walk_no_defs(cb.node):
+            if isinstance(x, ast.Assign) and len(x.targets) == 1 and isinstance(x.targets[0], ast.Name) and any(isinstance(y, ast.Name) and y.id in tainted for y in ast.walk(x.value)):
+                tainted.add(x.targets[0].id)
+    mod_tables = {n_ for n_, v in ((k, vs[0]) for k, vs in cb.module.globals_assigned.items() if len(vs) == 1) if isinstance(getattr(v, "value", None), (ast.Dict, ast.Set, ast.DictComp, ast.SetComp))
+                  or (isinstance(getattr(v, "value", None), ast.Call) and dotted(v.value.func) in ("dict", "set", "frozenset"))}
+    for x in walk_no_defs(cb.node):
+        hashed = None
+        if isinstance(x, ast.Compare) and isinstance(x.ops[0], (ast.In, ast.NotIn)) and isinstance(x.left, ast.Name) and x.left.id in tainted:
+            c0 = x.comparators[0]
+            if isinstance(c0, (ast.Dict, ast.Set)) or (isinstance(c0, ast.Name) and c0.id in mod_tables):
+                hashed = x.left
+        elif isinstance(x, ast.Subscript) and isinstance(x.value, ast.Name) and x.value.id in mod_tables and isinstance(x.slice, ast.Name) and x.slice.id in tainted:
+            hashed = x.slice
+        elif isinstance(x, ast.Call) and call_tail(x) == "get" and isinstance(x.func.value, ast.Name) and x.func.value.id in mod_tables and x.args and isinstance(x.args[0], ast.Name) and x.args[0].id in tainted:
+            hashed = x.args[0]
+        if hashed is None:
+            continue
+        cn = cfgb.node_containing(x)
+        facts = set()
+        for c in cn:
+            facts |= cfgb.facts(c)
+        okh = any(p and a.replace(" ", "").startswith("isinstance(") and any(t in a for t in ("str", "int", "bool", "float")) and "list" not in a and "dict" not in a for a, p in facts)
+        ctx.check(okh, "C13.TOTAL", ctx.okey(f"{cb.qual}/hashed-only-when-hashable"), cb.loc(x), f"`{src(x)[:50]}` hashes the flag value only where it is known to be a scalar",
+                  f"`{src(x)[:50]}` hashes the untrusted flag value: a JSON array or object there (`\"reflection\": []`) raises TypeError: unhashable type out of the sanitiser")
 
 
 LENIENT_CODEC_ERRORS = ("ignore", "replace", "surrogatepass", "surrogateescape", "backslashreplace", "xmlcharrefreplace", "namereplace")
